@@ -3,8 +3,15 @@
 package c05
 
 import (
+	"bytes"
 	"encoding/json"
 	"fmt"
+	"go/ast"
+	"go/importer"
+	"go/parser"
+	"go/printer"
+	"go/token"
+	"go/types"
 	"sort"
 	"strconv"
 	"strings"
@@ -503,6 +510,14 @@ func TestReplay(t *testing.T) {
 		if msg, _ := runNames(c); msg != "" {
 			ev.Failf(t, "TestHostileNames", c, "%s", msg)
 		}
+	case "TestScopes":
+		var c ScopeCase
+		if err := json.Unmarshal(r.Case, &c); err != nil {
+			t.Fatal(err)
+		}
+		if msg, _ := runScopes(c); msg != "" {
+			ev.Failf(t, "TestScopes", c, "%s", msg)
+		}
 	case "TestExprNesting":
 		var c ExprCase
 		if err := json.Unmarshal(r.Case, &c); err != nil {
@@ -629,4 +644,244 @@ func isReservedName(n string) bool {
 		return true
 	}
 	return false
+}
+
+// ---------------------------------------------------------------------
+// (f) block / let nesting: the binding structure of the emitted text (which
+// binder every variable occurrence refers to under Coq's scoping) must not
+// depend on the names of the Go variables. The same program is translated
+// twice — as generated (with shadowing and bare blocks) and with every local
+// variable renamed to a unique name — and the two binding structures must be
+// identical. A `let:` that leaks out of a Go block captures a later use of a
+// shadowed outer variable in the first version only.
+
+type ScopeCase struct {
+	Src string `json:"src"`
+}
+
+// bindingStructure lists, for every variable occurrence in a definition (in
+// pre-order), the index of the binder it resolves to (-1 = free).
+func bindingStructure(e vread.Expr) []int {
+	var out []int
+	nb := 0
+	type env struct {
+		name string
+		id   int
+		up   *env
+	}
+	var walk func(e vread.Expr, en *env)
+	bind := func(en *env, names []string) *env {
+		for _, n := range names {
+			nb++
+			if n != "" {
+				en = &env{n, nb, en}
+			}
+		}
+		return en
+	}
+	walk = func(e vread.Expr, en *env) {
+		switch e := e.(type) {
+		case vread.Str:
+			id := -1
+			for c := en; c != nil; c = c.up {
+				if c.name == e.S {
+					id = c.id
+					break
+				}
+			}
+			out = append(out, id)
+		case vread.Paren:
+			walk(e.X, en)
+		case vread.Scoped:
+			walk(e.X, en)
+		case vread.App:
+			// field names of struct operations and Panic messages are not variables
+			if g, ok := vread.Strip(e.Fn).(vread.Gid); ok {
+				switch g.Name {
+				case "struct.get", "struct.loadF", "struct.storeF", "struct.fieldRef":
+					for i, a := range e.Args {
+						if i != 1 {
+							walk(a, en)
+						}
+					}
+					return
+				case "Panic":
+					return
+				case "ForSlice":
+					if len(e.Args) == 5 {
+						walk(e.Args[3], en)
+						var names []string
+						for _, b := range e.Args[1:3] {
+							if s, ok := vread.Strip(b).(vread.Str); ok {
+								names = append(names, s.S)
+							} else {
+								names = append(names, "")
+							}
+						}
+						walk(e.Args[4], bind(en, names))
+						return
+					}
+				}
+			}
+			walk(e.Fn, en)
+			for _, a := range e.Args {
+				walk(a, en)
+			}
+		case vread.Bin:
+			if e.Op == "::=" {
+				walk(e.Y, en)
+				return
+			}
+			walk(e.X, en)
+			walk(e.Y, en)
+		case vread.Not:
+			walk(e.X, en)
+		case vread.Load:
+			walk(e.X, en)
+		case vread.Store:
+			walk(e.Dst, en)
+			walk(e.Val, en)
+		case vread.Let:
+			walk(e.Bound, en)
+			walk(e.Body, bind(en, e.Names))
+		case vread.Seq:
+			walk(e.A, en)
+			walk(e.B, en)
+		case vread.If:
+			walk(e.Cond, en)
+			walk(e.Then, en)
+			walk(e.Else, en)
+		case vread.Lam:
+			walk(e.Body, bind(en, e.Params))
+		case vread.Rec:
+			walk(e.Body, bind(bind(en, []string{e.Name}), e.Params))
+		case vread.Tuple:
+			for _, x := range e.Elems {
+				walk(x, en)
+			}
+		case vread.For:
+			walk(e.Cond, en)
+			walk(e.Post, en)
+			walk(e.Body, en)
+		case vread.List:
+			for _, x := range e.Elems {
+				walk(x, en)
+			}
+		}
+	}
+	walk(e, nil)
+	return out
+}
+
+// renameLocals gives every local variable (declared inside a function body,
+// parameters included) a unique name.
+func renameLocals(src string) (string, error) {
+	fset := token.NewFileSet()
+	f, err := parser.ParseFile(fset, "prog.go", src, parser.ParseComments)
+	if err != nil {
+		return "", err
+	}
+	info := &types.Info{Defs: map[*ast.Ident]types.Object{}, Uses: map[*ast.Ident]types.Object{}}
+	conf := types.Config{Importer: importer.ForCompiler(fset, "source", nil), Error: func(error) {}}
+	pkg, _ := conf.Check("main", fset, []*ast.File{f}, info)
+	if pkg == nil {
+		return "", fmt.Errorf("type check failed")
+	}
+	names := map[types.Object]string{}
+	n := 0
+	rename := func(id *ast.Ident, obj types.Object) {
+		v, ok := obj.(*types.Var)
+		if !ok || v.IsField() || v.Parent() == nil || v.Parent() == pkg.Scope() || id.Name == "_" {
+			return
+		}
+		if _, ok := names[obj]; !ok {
+			n++
+			names[obj] = fmt.Sprintf("%s_r%d", obj.Name(), n)
+		}
+		id.Name = names[obj]
+	}
+	for id, obj := range info.Defs {
+		if obj != nil {
+			rename(id, obj)
+		}
+	}
+	for id, obj := range info.Uses {
+		rename(id, obj)
+	}
+	var buf bytes.Buffer
+	if err := printer.Fprint(&buf, fset, f); err != nil {
+		return "", err
+	}
+	return buf.String(), nil
+}
+
+func runScopes(c ScopeCase) (string, bool) {
+	renamed, err := renameLocals(c.Src)
+	if err != nil {
+		return "", false
+	}
+	t1, err := translate(c.Src, goose.TranslationConfig{})
+	if err != nil || t1.Panic != nil || len(t1.Errs) > 0 {
+		return "", false
+	}
+	t2, err := translate(renamed, goose.TranslationConfig{})
+	if err != nil || t2.Panic != nil || len(t2.Errs) > 0 {
+		return "", false
+	}
+	f1, err := vread.ParseFile(t1.Text)
+	if err != nil {
+		return "emitted text is not well-formed: " + err.Error(), true
+	}
+	f2, err := vread.ParseFile(t2.Text)
+	if err != nil {
+		return "", false
+	}
+	for _, d := range f1.Defs() {
+		d2 := f2.Def(d.Name)
+		if d2 == nil {
+			return "", false
+		}
+		b1, b2 := bindingStructure(d.Body), bindingStructure(d2.Body)
+		if fmt.Sprint(b1) != fmt.Sprint(b2) {
+			k := 0
+			for k < len(b1) && k < len(b2) && b1[k] == b2[k] {
+				k++
+			}
+			return fmt.Sprintf("the binding structure of %s depends on the variable names: occurrence #%d resolves to binder %v in the original and to binder %v after renaming all locals apart (a let: escapes its block, or is captured)\n--- original Go ---\n%s\n--- emitted ---\n%s\n--- emitted after renaming ---\n%s",
+				d.Name, k, at(b1, k), at(b2, k), c.Src, d.Raw, d2.Raw), true
+		}
+	}
+	return "", true
+}
+
+func at(s []int, k int) any {
+	if k < len(s) {
+		return s[k]
+	}
+	return "none"
+}
+
+func TestScopes(t *testing.T) {
+	rapid.Check(t, func(t *rapid.T) {
+		cfg := gen.DefaultConfig()
+		cfg.Entries, cfg.Helpers, cfg.MaxStmts = 2, 2, 5
+		cfg.NoBareBlocks = ev.SwitchOn("c02BareBlockScope")
+		cfg.NoLoopVarReuse = ev.SwitchOn("c02LoopVarScope")
+		cfg.NoMachine = true
+		p := gen.Generate(t, cfg)
+		c := ScopeCase{Src: p.Source("main")}
+		ev.Eval()
+		msg, ok := runScopes(c)
+		if !ok {
+			ev.Inconclusive("scopes: program unusable")
+			return
+		}
+		if p.Features["shadowing"] > 0 || p.Features["bare-block"] > 0 {
+			ev.NonTrivial("scopes|" + c.Src)
+			ev.Label("scopes:with-shadowing-or-bare-block")
+		}
+		if msg != "" {
+			ev.Failf(t, "TestScopes", c, "%s", msg)
+		}
+	})
 }
